@@ -1202,3 +1202,57 @@ func specDirectWriteOK(from ast.Format, ctx ast.Context) bool {
 //@   loop 0
 //@     invariant 0 <= i && 0 <= p && p <= len(txt)
 //@     decreases size - i
+
+// ---------------------------------------------------------------------------
+// parser_program.go (C04): ParseProgram walks the imports of a module with an
+// explicit stack. No panic: every stack entry is a non-nil import, all but the
+// main entry carry a position, and the importer whose path an error names is
+// looked up among the parsed entries only.
+// Assumed of parsePackage (parser output): the first node of a program tree is
+// its package node and the import declarations in it are non-nil nodes with a
+// position.
+// ---------------------------------------------------------------------------
+
+func specImportDeclOK(n ast.Node) bool {
+	imp, ok := n.(*ast.Import)
+	return !ok || imp != nil && imp.Position != nil
+}
+
+func specIsPackage(n ast.Node) bool { p, ok := n.(*ast.Package); return ok && p != nil }
+func specPackage(n ast.Node) *ast.Package { p, _ := n.(*ast.Package); return p }
+
+func specEntryOK(imp *ast.Import, k int) bool { return imp != nil && (k == 0 || imp.Position != nil) }
+
+//@ func parsePackage
+//@   props C04
+//@   trusted
+//@   modifies nothing
+//@   opt allocates yes
+//@   ensures result != nil ==> len(result.Nodes) > 0 && specIsPackage(result.Nodes[0])
+//@   ensures result != nil ==> forall(0, len(specPackage(result.Nodes[0]).Declarations), func(k int) bool { return specImportDeclOK(specPackage(result.Nodes[0]).Declarations[k]) })
+
+//@ func readModulePath
+//@   props C04
+//@   trusted
+//@   modifies nothing
+
+//@ func ParseProgram
+//@   props C04
+//@   opt splitpaths yes
+//@   opt absindex yes
+//@   loop 0
+//@     invariant main != nil && trees != nil
+//@     invariant forall(0, len(imports), func(k int) bool { return specEntryOK(imports[k], k) })
+//@   loop 1
+//@     invariant -1 <= i && i < last && last < len(imports)
+//@     invariant forall(0, len(imports), func(k int) bool { return specEntryOK(imports[k], k) })
+//@     decreases i + 1
+//@   loop 2
+//@     invariant 0 <= last && last < len(imports) && main != nil && trees != nil && n != nil
+//@     invariant forall(0, len(declarations), func(k int) bool { return specImportDeclOK(declarations[k]) })
+//@     invariant forall(0, len(imports), func(k int) bool { return specEntryOK(imports[k], k) })
+//@   loop 3
+//@     invariant imp != nil && imp.Position != nil
+//@     invariant forall(0, len(imports), func(k int) bool { return specEntryOK(imports[k], k) })
+//@   loop 4
+//@     invariant forall(0, len(imports), func(k int) bool { return specEntryOK(imports[k], k) })
